@@ -316,9 +316,9 @@ PROPS["C06"] = {'claimed': True,
                   'harness PHY / scripted applications / scripted environment of harness/src/fdl.rs; monitors of coq/Model/FdlOracle.v (extracted) '
                   "run on the implementation's transcript"],
  'technique': "Coq theorems about the Gallina model of the FDL active station (one-step theorems over all states, two-poll and n-poll histories) + differential correspondence poll by poll + executable monitor of the property on the implementation's transcript",
- 'level_text': 'PARTIAL - single-station half only. Machine-checked theorems (Coq 8.16.1, closed under the global context) about the model coq/Model/Fdl.v of src/fdl/active.rs, whole polls, all station states / parameters / applications / times / inputs under the stated hypotheses: C06_claim_progress (silence for the token-lost time-out => the next poll transmits the claim token); C06_claim_only_after_timeout + C06_claim_needs_silence (a poll enters ClaimToken only from ListenToken/ActiveIdle and only if the recorded bus activity, new receive bytes included, is at least the time-out old); C06_claim_stagger (time-out = (6 + 2 TS) Tslot grows by >= 2 Tslot per address step); C06_backoff (waiting for a data reply / GAP reply / scan reply and finding another complete telegram => ActiveIdle, nothing transmitted, no application called, ring view unchanged); C06_collision_* (ActiveIdle: token telegrams with own source address - first tolerated, second in a row leaves the ring for ListenToken; ListenToken: any telegram with own source address - first tolerated, second takes the station offline by re-creating it; closure-level and two-poll histories); C06_garbage_discarded (undecodable new bytes in a reading state: buffer dropped, nothing transmitted, only last_bus_activity / pending_bytes change); C06_lost_token_recovers_alone_partial (a lone idle station on a silent bus, ANY poll schedule: no poll panics, nothing happens before the time-out, the first poll at or after last activity + time-out transmits the claim token and the station holds the token). Retry and removal of a silent successor are C11_retry_discipline. The N-station property itself is NOT proved: it is only monitored on the implementation (see partial_gap).',
+ 'level_text': 'PARTIAL - single-station half only. Machine-checked theorems (Coq 8.16.1, closed under the global context) about the model coq/Model/Fdl.v of src/fdl/active.rs, whole polls, all station states / parameters / applications / times / inputs under the stated hypotheses: C06_claim_progress (silence for the token-lost time-out => the next poll transmits the claim token); C06_claim_only_after_timeout + C06_claim_needs_silence (a poll enters ClaimToken only from ListenToken/ActiveIdle and only if the recorded bus activity, new receive bytes included, is at least the time-out old); C06_claim_stagger (time-out = (6 + 2 TS) Tslot grows by >= 2 Tslot per address step); C06_backoff (waiting for a data reply / GAP reply / scan reply and finding another complete telegram => ActiveIdle, nothing transmitted, no application called, ring view unchanged) and C06_holding_defers (UseToken / transmitting ClaimToken steps / PassToken do not read the buffer: new bytes => nothing transmitted in that poll, state kept); C06_collision_* (ActiveIdle: token telegrams with own source address - first tolerated, second in a row leaves the ring for ListenToken; ListenToken: any telegram with own source address - first tolerated, second takes the station offline by re-creating it; closure-level and two-poll histories); C06_garbage_discarded (undecodable new bytes in a reading state: buffer dropped, nothing transmitted, only last_bus_activity / pending_bytes change); C06_lost_token_recovers_alone_partial (a lone idle station on a silent bus, ANY poll schedule: no poll panics, nothing happens before the time-out, the first poll at or after last activity + time-out transmits the claim token and the station holds the token; _fresh_partial: the same counted from the first poll of a station just set online). Retry and removal of a silent successor are C11_retry_discipline. The N-station property itself is NOT proved: it is only monitored on the implementation (see partial_gap).',
  'level_note': 'Trusted: Coq kernel, the regex translators (constants token_lost_base / token_lost_per_addr, collision tolerances, tables regenerated from the crate), OCaml extraction + driver, Rust harness. The hand model is validated, not verified, against active.rs (differential execution poll by poll). One poll sees an atomic PHY snapshot. Theorems other than C06_claim_progress and C06_lost_token_recovers_alone_partial assume the poll returns (no panic); those two prove it. The monitors of coq/Model/FdlOracle.v run on single-station implementation transcripts.',
- 'partial_gap': 'NOT PROVED: the property proper - after an arbitrary finite fault plan the remaining N online stations re-establish a single circulating token within a bounded time, re-admit every live station and remove the gone ones. There is no theorem about N stations, about the timed composition, or about a recovery bound; that part is only MONITORED on the implementation (single-station monitors of the fdl domain in this check; bus-level N-station monitors under fault plans are a separate check under construction) - a test, not a proof. Also open in the single-station half: C06_lost_token_recovers_alone for the states PassToken / CheckTokenPass (working off a stale ring view: each step is described by C11_retry_discipline, the bound over the whole LAS is missing), with a status request pending, and for the poll that takes the station online.',
+ 'partial_gap': 'NOT PROVED: the property proper - after an arbitrary finite fault plan the remaining N online stations re-establish a single circulating token within a bounded time, re-admit every live station and remove the gone ones. There is no theorem about N stations, about the timed composition, or about a recovery bound; that part is only MONITORED on the implementation (single-station monitors of the fdl domain in this check; bus-level N-station monitors under fault plans are a separate check under construction) - a test, not a proof. Also open in the single-station half: C06_lost_token_recovers_alone for the states PassToken / CheckTokenPass (working off a stale ring view: each step is described by C11_retry_discipline, the bound over the whole LAS is missing) and with a status request pending.',
  'design_ref': 'DESIGN.md section 4, C06',
  'assumptions': ['single station']}
 
